@@ -36,9 +36,12 @@ def _fmt_specs(rng):
         return "lossless", [8, 23, "nearest", 0], [8, 23, "nearest", 0]
     if r < 0.6:
         return "nearest", [4, 3, "nearest", 0], [5, 2, "nearest", 0]
-    if r < 0.8:
+    if r < 0.7:
         return "stochastic", [4, 3, "stochastic", rng.choice([0, 4])], [5, 2, "stochastic", rng.choice([0, 4])]
     E1, E2 = rng.randint(2, 6), rng.randint(3, 7)
+    if rng.random() < 0.4:
+        # range-only formats: full mantissa, few exponent bits (saturation and the subnormal grid are all that is simulated)
+        return "range-only", [rng.randint(2, 3), 23, "nearest", 0], [rng.randint(2, 4), rng.choice([23, 23, 10]), "nearest", 0]
     return "random", [E1, rng.randint(0, 8), rng.choice(["nearest", "stochastic"]), 0], [E2, rng.randint(0, 6), rng.choice(["nearest", "stochastic"]), 0]
 
 
@@ -161,7 +164,8 @@ def run_case(case: Dict[str, Any], ctx) -> None:
     # ---- the formats actually used must be the caller's ---------------------------------------------
     allowed = {(f.exponent_bits, f.mantissa_bits, f.rounding, f.srbits) for f in (fwd, bwd)}
     used = {c[:4] for c in qlog.calls}
-    if has_q and not used:
+    lossless_pair = all(f.exponent_bits == 8 and f.mantissa_bits == 23 for f in (fwd, bwd))
+    if has_q and not used and not lossless_pair:
         ctx.violation("C15:no-quantisation-applied:" + ("root-module-is-a-layer" if root_case else "container"),
                       "the transformed module never called FPFormat.quantise although it contains linear / attention operations", source=src, fmt=fmt_name)
     elif used - allowed:
